@@ -34,3 +34,22 @@ Proof.
 Qed.
 
 Print Assumptions run2_seg_none.
+
+(* the same for the shape of an array that is there *)
+From FT Require Import Proofs.EditSeg Proofs.EditSegShape.
+Theorem step2_shape st o : shp st (fst (step2 st o)).
+Proof.
+  destruct o as [e|ks rc ctrk clin|ks]; cbn [step2].
+  - apply step_shape.
+  - rewrite fst_fin. apply shp_of_eq. unfold seg_eq. apply enable_seg.
+  - rewrite fst_fin. apply shp_of_eq. unfold seg_eq. apply disable_seg.
+Qed.
+Theorem run2_shape : forall ops st, shp st (run2 st ops).
+Proof.
+  induction ops as [|o r IH]; intros st; [apply shp_refl|].
+  change (run2 st (o :: r)) with (run2 (fst (step2 st o)) r). eapply shp_trans; [apply step2_shape|apply IH].
+Qed.
+Corollary run2_keeps_array_shape ops st sg : seg st = Some sg ->
+  exists sg', seg (run2 st ops) = Some sg' /\ same_shape sg' sg.
+Proof. intros E. pose proof (run2_shape ops st) as H. apply shp_spec in H. rewrite E in H. exact H. Qed.
+Print Assumptions run2_keeps_array_shape.
